@@ -47,6 +47,7 @@ type Report struct {
 	Outcomes       map[string]int
 	Violations     []*Violation
 	Samples        []PathResult
+	Fallback       []PathResult // paths the engine could not follow (unsupported construct, engine fault): replayed natively with the inputs of the path prefix
 	Reached        map[string]int
 	Notes          map[string]int
 	Msgs           map[string]int // abort reasons
@@ -118,7 +119,7 @@ func (w *World) RunPath(fn *ssa.Function, s *smt.Solver, pp PendingPath, maxStep
 		}
 		call(i, nil, 0, fn, nil)
 	}()
-	if res.Outcome == "ok" || res.Outcome == "done" {
+	if res.Outcome == "ok" || res.Outcome == "done" || res.Outcome == "unsupported" || res.Outcome == "engine" {
 		// make sure the reported inputs satisfy the path condition
 		func() {
 			defer func() { recover() }()
@@ -264,6 +265,9 @@ func (w *World) Explore(name string, opt Options) (*Report, error) {
 				// an uncaught panic out of the harness is itself a finding candidate
 				rep.Violations = append(rep.Violations, &Violation{Label: "uncaught-panic", Inputs: res.Inputs, Tables: p.Tables,
 					Forks: append([]int32(nil), p.Forks...), Trace: res.Trace, Detail: res.Msg})
+			}
+			if (res.Outcome == "unsupported" || res.Outcome == "engine") && len(rep.Fallback) < 64 {
+				rep.Fallback = append(rep.Fallback, res)
 			}
 			if len(rep.Samples) < opt.KeepSample || (res.Outcome != "ok" && len(rep.Samples) < 3*opt.KeepSample) {
 				rep.Samples = append(rep.Samples, res)
